@@ -205,6 +205,8 @@ class EvoContract(Contract):
             return args[0].kind == "dop"
         if name == "issparse":
             return args[0].kind == "sparse"
+        if name == "np.asarray" and len(args) == 1 and isinstance(args[0], Q):
+            return args[0]  # [leaf] the same matrix as a plain array
         if name == "ensure_dict":
             return {} if args[0] is None else args[0]
         if name == "eigh":
